@@ -1536,7 +1536,7 @@ Qed.
    (after the epoch) and a max wait; units {0,1} and {2}; every constraint and
    the activation, travel, vehicles-duration and unplanned terms installed *)
 Definition ex2_opts : options :=
-  mkOptions false false false false false false false false false false false 1 1 1 1 false 0 0 0 0 false.
+  mkOptions false false false false false false false false false false false 1 1 1 1 false 0 0 0 0 false [].
 Definition ex2_mat : list (list Z) :=
   map (fun i => map (fun j => if Nat.eqb i j then 0 else 60) (seqn 7)) (seqn 7).
 Definition ex2_vehicle : ivehicle :=
@@ -1723,7 +1723,7 @@ Definition dgx_s1 : state := Eval vm_compute in fst (exec_move dgx_inp dgx_s0 dg
 Definition dgx_off_inp : input :=
   mkInput [] dgx_stops [mkIVehicle None [] 0 None None None None None [] 0 true true 0 0 1 1]
           [mkIUnit [0; 1; 2; 3]%nat []] dgx_mat dgx_mat 0
-          (mkOptions false false false false false false false false false false false 0 1 0 1 true 0 0 0 0 false)
+          (mkOptions false false false false false false false false false false false 0 1 0 1 true 0 0 0 0 false [])
           [([0; 1; 3]%nat, 300)].
 
 Example dgx_wf : wf_input dgx_inp.
@@ -1801,7 +1801,7 @@ Definition mx_s1 : state := Eval vm_compute in fst (exec_move mx_inp mx_s0 mx_mv
 (* the same input with the stop duration multipliers disabled *)
 Definition mx_off_inp : input :=
   mkInput [] mx_stops [mx_veh] [mkIUnit [0%nat] []; mkIUnit [1%nat] []] mx_mat mx_mat 0
-          (mkOptions false false false false false false false false false false false 0 1 0 1 false 0 0 0 0 true)
+          (mkOptions false false false false false false false false false false false 0 1 0 1 false 0 0 0 0 true [])
           [([0%nat], 5)].
 Definition mx_off_s0 : state :=
   Eval vm_compute in match new_solution mx_off_inp with Some s => s | None => ex_dummy end.
@@ -1889,7 +1889,7 @@ Qed.
      vehicle 0 has 2 stops of 3: 10 * 1 * 1; the empty vehicle 1 is free
      the largest vehicle has 2 stops *)
 Definition mt_opts : options :=
-  mkOptions false false false false false false false false false false false 1 1 1 1 false 2 3 5 7 false.
+  mkOptions false false false false false false false false false false false 1 1 1 1 false 2 3 5 7 false [].
 Definition mt_mat : list (list Z) :=
   map (fun i => map (fun j => if Nat.eqb i j then 0 else 60) (seqn 6)) (seqn 6).
 Definition mt_vehicle : ivehicle :=
@@ -1964,6 +1964,91 @@ Proof.
   repeat split; vm_compute; reflexivity.
 Qed.
 
+(* ------------------------------------------------------------------ *)
+(* Capacity excess as an objective (the constraint switched off)        *)
+(* ------------------------------------------------------------------ *)
+
+(* One resource.  Stop 0 picks up 3, stop 1 drops 1; one vehicle of capacity 1
+   starting empty; the capacity constraint is switched off and the excess is
+   penalised with factor 10 and offset 5.  Route start, 0, 1, end:
+     levels 0, 3, 2, 2  -  excess 0 + 2 + 1 + 1 = 4 (the level the vehicle
+     ARRIVES with at its last stop counts), + offset 5 = 9, times 10 = 90.
+   Without a drop-off anywhere the excess would be taken at the last stop only. *)
+Definition co_opts : options :=
+  mkOptions true false false false false false false false false false false 0 1 0 1 false 0 0 0 0 false [(0%nat, (10, 5))].
+Definition co_vehicle : ivehicle :=
+  mkIVehicle (Some [1]) [0] 0 None None None None None [] 0 true true 0 0 1 1.
+Definition co_inp : input :=
+  mkInput [] [mkIStop [-3] 10 [] None 100 [] None 0 0; mkIStop [1] 10 [] None 100 [] None 0 0]
+          [co_vehicle]
+          [mkIUnit [0%nat] []; mkIUnit [1%nat] []]
+          (map (fun i => map (fun j => if Nat.eqb i j then 0 else 60) (seqn 4)) (seqn 4))
+          (map (fun i => map (fun j => if Nat.eqb i j then 0 else 60) (seqn 4)) (seqn 4)) 1 co_opts [].
+Definition co_s0 : state :=
+  Eval vm_compute in match new_solution co_inp with Some s => s | None => ex_dummy end.
+Definition co_mv1 : move := mkMove 0 0 [(0, 1)]%nat.
+Definition co_s1 : state := Eval vm_compute in fst (exec_move co_inp co_s0 co_mv1).
+Definition co_mv2 : move := mkMove 1 0 [(1, 2)]%nat.
+Definition co_s2 : state := Eval vm_compute in fst (exec_move co_inp co_s1 co_mv2).
+
+Example co_wf : wf_input co_inp.
+Proof.
+  split; [|split; [|split]].
+  - vm_compute. repeat (constructor; [simpl; lia|]). constructor.
+  - intros x. vm_compute. lia.
+  - intros u Hu. vm_compute in Hu. destruct Hu as [<-|[<-|[]]]; discriminate.
+  - split; [vm_compute; repeat constructor|mult_wf].
+Qed.
+
+Example co_new : new_solution co_inp = Some co_s0.
+Proof. vm_compute. reflexivity. Qed.
+
+Example co_mv1_ok : move_ok co_inp co_s0 co_mv1.
+Proof.
+  unfold move_ok. vm_compute.
+  split; [lia|]. split; [lia|]. split; [apply Permutation_refl|]. split; [discriminate|].
+  split; repeat constructor.
+Qed.
+
+Example co_mv2_ok : move_ok co_inp co_s1 co_mv2.
+Proof.
+  unfold move_ok. vm_compute.
+  split; [lia|]. split; [lia|]. split; [apply Permutation_refl|]. split; [discriminate|].
+  split; repeat constructor.
+Qed.
+
+Example co_mv1_done : exec_move co_inp co_s0 co_mv1 = (co_s1, Done).
+Proof. vm_compute. reflexivity. Qed.
+
+Example co_mv2_done : exec_move co_inp co_s1 co_mv2 = (co_s2, Done).
+Proof. vm_compute. reflexivity. Qed.
+
+Example co_reachable : reachable co_inp co_s2.
+Proof.
+  exists co_s0, [OpPlan co_mv1; OpPlan co_mv2]. split; [exact co_new|]. split.
+  - cbn [fresh op_ok]. split; [exact co_mv1_ok|]. cbn [step]. rewrite co_mv1_done. cbn [fst].
+    split; [exact co_mv2_ok|exact I].
+  - cbn [run step]. rewrite co_mv1_done. cbn [fst run step]. rewrite co_mv2_done. cbn [fst].
+    right. right. left. reflexivity.
+Qed.
+
+Example C05_capacity_objective_example_proof :
+  wf_input co_inp /\ reachable co_inp co_s2 /\
+  map route_stops (st_routes co_s2) = [[2; 0; 1; 3]]%nat /\
+  map (fun c => nthZ (c_levels c) 0) (get_route co_s2 0) = [0; 3; 2; 2] /\
+  has_capacity co_inp = false /\ cap_has_neg co_inp 0 = true /\
+  obj_capacity_excess co_inp co_s2 0 5 = (0 + 2 + 1 + 1) + 5 /\
+  (* travel, unplanned, capacity excess *)
+  score_terms co_inp co_s2 = [180; 0; 90] /\
+  st_scores co_s2 = [180; 0; 90] /\ st_total co_s2 = 270 /\
+  (* with only the pick-up planned nothing is ever below the level reached: still every stop counts here, because the
+     INPUT has a drop-off; the state after the first move: levels 0, 3, 3 - excess 2 + 2 + offset *)
+  obj_capacity_excess co_inp co_s1 0 5 = (0 + 2 + 2) + 5.
+Proof.
+  split; [exact co_wf|]. split; [exact co_reachable|].
+  repeat split; vm_compute; reflexivity.
+Qed.
+
 (* ================================================================== *)
 (* Assumptions                                                         *)
 (* ================================================================== *)
@@ -1977,3 +2062,4 @@ Print Assumptions stop_violation_none.
 Print Assumptions ex2_capacity_prefix.
 Print Assumptions third_branch_fires.
 Print Assumptions C05_more_terms_example_proof.
+Print Assumptions C05_capacity_objective_example_proof.
